@@ -780,7 +780,8 @@ func (self *Fork) removeEmptyFileArgs(outs LazyArgumentMap) {
 		return
 	} else {
 		for arg := range self.fileArgs {
-			if val := outs.jsonPath(arg); len(getMaybeFileNames(val)) == 0 {
+			if val := outs.typedPath(arg, self.OutParams(),
+				self.node.top.types); len(getMaybeFileNames(val)) == 0 {
 				self.removeFileArg(arg)
 			}
 		}
